@@ -9,9 +9,10 @@ Layer 1, topology (exact, index level):
   corners are the quad's points on layer `l` and whose top corners the same points on layer `l+1`;
   `canon` renumbers vertices in the order in which `Mesh._add_vertices` meets them;
 * `ringQuads` / `gridQuads` are the hand models of `Annulus(n)` and `Grid(n, m)` (no quad map in the source);
-* wires come from the generated `AXIS_PAIRS`; two block axes are neighbours when they share a wire
-  (`Axis.add_neighbour`); `closure` mirrors, at axis level, `BlockList.propagate_gradings` after the
-  repair of C02 (an axis is defined iff it is chopped or a neighbour axis is defined);
+* wires come from the generated `AXIS_PAIRS`; a wire is coded as a number, the wires of a block axis as a
+  bit mask; two block axes are neighbours when their masks meet (`Axis.add_neighbour`: they share a wire);
+  `closure` mirrors, at axis level, `BlockList.propagate_gradings` after the repair of C02 (an axis is
+  defined iff it is chopped or a neighbour axis is defined), as breadth-first passes over the undefined axes;
   `writeResult` is what `Mesh.write` answers: ok or the list of blocks with an undefined axis;
 * `chopNodes` evaluates `LoftedShape.chop(axis)` through the generated `Sketch.chops` lists.
 
